@@ -147,4 +147,25 @@ CHECKS["C11"] = {
     "note": "Objects abstract (coverage.partial); C11_mutex in its `_partial` form, the stronger reading refuted with a witness.",
     "technique": "Coq inductive invariants over transition system + lock-step trace inclusion + scenario oracles",
 }
+CHECKS["C06"] = {
+    "text": "Theorems (Coq) over MuWaitModel (mu.c + mu_wait.c: conditional waits, the multi-round scan of unlock_slow with condition "
+            "evaluation outside the spinlock, same_condition rings as explicit prev/next pointers, ring repair on removal, timeout "
+            "re-acquisition; values/guards regenerated): every condition evaluation happens while the evaluator owns lock bits and no "
+            "other thread is a writer (C06_eval_under_lock, resting on C01w_exclusion); the ring operations preserve RingInv and the scan "
+            "only skips waiters whose condition is false under a truth-preserving eq (C06_rings_*, C06_scan_sound, queues of any length).  "
+            "Lock-step replay with queue and ring snapshots; termination + evaluation oracles over conditional-wait scenarios.",
+    "design_ref": "DESIGN.md section 4, C06",
+    "note": "RingInv not yet a reachable-world invariant; all-false soundness and no-stuck partial (coverage.partial).",
+    "technique": "Coq invariants and pure-function lemmas over source-regenerated model + lock-step trace inclusion + scenario oracles",
+}
+CHECKS["C05"] = {
+    "text": "Theorems (Coq): at every return of nsync_mu_wait_with_deadline (MuWaitModel) / nsync_cv_wait_with_deadline (CvModel) the "
+            "thread holds the mutex in the mode captured at entry, ETIMEDOUT only if the clock had reached the deadline at an earlier step "
+            "of the call, ECANCELED only if the note is notified, mu_wait returns 0 exactly when the condition is true now (any threads / "
+            "programs / schedules / clock / note behaviour).  Every wait return of the cv, mu_wait and cancellation scenarios is checked "
+            "against shadow lock mode, virtual clock and note state; waits nobody wakes must end by the note or the deadline.",
+    "design_ref": "DESIGN.md section 4, C05",
+    "note": "'needs no further wake-up' is oracle-decided (coverage.partial).",
+    "technique": "Coq invariants over source-regenerated transition systems + lock-step trace inclusion + return-time oracles",
+}
 NOT_APPLICABLE = {}
